@@ -768,8 +768,8 @@ def run(ctx):
                           {'mode': 'dfs', 'cfg': name, 'trace': [list(e) for e in tr]})
     ctx.cov.update({
         'states': dstates + nexec, 'transitions': dtrans + nexec, 'traces_validated_against_impl': nexec,
-        'samples': [{'configuration': 'fork-depth-2-longer:A-dials-B', 'deviations': [[7, ['tick', 1, 0]]]},
-                    {'configuration': 'triangle-long-at-0', 'deviations': []}],
+        'samples': [{'configuration': j[0], 'deviations': [[s_, list(e_)] for s_, e_ in (j[2][-1] if isinstance(j[2], list) and j[2] else ())]}
+                    for j in jobs[:3]],
         'configurations': len(C), 'schedules_per_configuration': nsched, 'deviation_executions': nexec,
         'exhaustive_configurations': len(small), 'exhaustive_states': dstates, 'exhaustive_transitions': dtrans,
         'exhaustive_state_cap': cap, 'exhaustive_capped': capped, 'exhaustive': not capped,
